@@ -479,6 +479,16 @@ Theorem c20_split : forall delims input,
 Proof. exact string_split_spec. Qed.
 Print Assumptions c20_split.
 
+(* A long-lived DmxBuffer (the object model the correspondence drives with sequences of
+   SetFromString / Set / SetRangeToValue on ONE buffer): whatever the earlier calls left in the
+   block, after SetFromString(text) the frame is the function of the text alone that the theorems
+   above characterise - in particular an empty field reads 0, never an old slot.                  *)
+Theorem c20_dmx_history : forall ops input o,
+  dmx_frame (dmx_run (ops ++ [OpText input])) = dmx_set_from_string input /\
+  dmx_frame (dmx_step o (OpText input)) = dmx_set_from_string input.
+Proof. intros ops input o. split; [exact (dmx_history ops input)|exact (dmx_text_step_frame o input)]. Qed.
+Print Assumptions c20_dmx_history.
+
 (* ---- non-vacuity ------------------------------------------------------------------------------- *)
 (* the hypotheses on the external functions are jointly satisfiable ... *)
 Example ex_net_hyps_sat :
@@ -541,3 +551,8 @@ Example ex_ext :
   dmx_set_from_string [32; 50; 54; 54; 44; 44; 45; 49; 44; 49; 120] = [10; 0; 255; 1] /\
   or_default (string_to_u8 true [50; 53; 54]) 42 = 42.
 Proof. vm_compute. repeat split; reflexivity. Qed.
+
+Example ex_dmx_dirty :
+  dmx_frame (dmx_run [OpText [57; 44; 57; 44; 57]; OpRange 201 300; OpSet [238; 238; 238]; OpText [49; 44; 44; 51]]) = [1; 0; 3] /\
+  dmx_frame (dmx_run [OpText [57; 44; 57; 44; 57]; OpRange 201 300]) = [201; 201; 201] ++ repeat 201 297.
+Proof. vm_compute. split; reflexivity. Qed.
